@@ -110,7 +110,8 @@ def encode(e, tid, n):
                  bid=_s(top[0]), bidx=top[1] if isinstance(top[1], int) else -1,
                  blen=top[2] if isinstance(top[2], int) else -1, brange=_s(top[3]),
                  retry=e.get("retry", 0) if isinstance(e.get("retry", 0), int) else 0,
-                 shared=bool(e.get("shared", False)), fn=e.get("fn", ""), callback=bool(e.get("callback", False)))
+                 shared=bool(e.get("shared", False)), fn=e.get("fn", ""), callback=bool(e.get("callback", False)),
+                 smid=_s(e.get("smid", "")))
     elif k == "ack":
         o.update(conn=e["conn"], ch=e["ch"], tag=e["tag"], multiple=e["multiple"], known=e["known"])
     elif k == "note":
@@ -171,6 +172,8 @@ def encode(e, tid, n):
         o.update(arn=_s(e["arn"]), smtype=e["smtype"], mc=[{"state": _s(a), "n": b} for a, b in e.get("mc", [])])
     elif k == "escaped":
         o.update(err=_s(e["err"]))
+    elif k == "histapi":
+        o.update(exec=_s(e["exec"]), status=e["status"], fwd=e["fwd"], rev=e["rev"], fwdtypes=[_s(x) for x in e["fwdtypes"]], revtypes=[_s(x) for x in e["revtypes"]])
     elif k == "expect":
         o.update(exec=_s(e["exec"]), status=_s(e["status"]), output=_opt(e.get("output")), error=_opt(e.get("error")), strict=bool(e["strict"]))
     elif k == "api":
